@@ -87,8 +87,8 @@ func parseQuantAssert(line string) (qAssume, bool) {
 		b = r
 	}
 	q.body = body
-	if len(q.vars) == 1 && strings.Contains(body, " "+q.vars[0]+")") && !strings.Contains(body, ") "+q.vars[0]+")") {
-		// e.g. (select apparr q) with q never under (+ (s.off S) q)
+	if len(q.vars) == 1 && (strings.HasPrefix(body, "(= (select apparr!") || strings.HasPrefix(body, "(= (select copyarr!") || strings.HasPrefix(body, "(= (select delarr!")) {
+		// definitions of a copied/appended array: the bound variable is an absolute cell index
 		q.abs = true
 	}
 	return q, len(q.vars) >= 1 && len(q.vars) <= 2
@@ -135,18 +135,16 @@ func indexOccurrences(s string) []idxOcc {
 			break
 		}
 		p := i + j + len(pre)
-		e := strings.IndexByte(s[p:], ')')
-		if e < 0 {
-			break
-		}
-		name := s[p : p+e]
-		rest := s[p+e+1:]
-		x, _ := splitSexp(rest)
+		name, rest := splitSexp(s[p:])
 		i = p
-		if strings.ContainsAny(name, " (") || x == "" {
+		if name == "" || !strings.HasPrefix(rest, ")") {
 			continue
 		}
-		if strings.Contains(x, "q_") || strings.Contains(x, "p!") {
+		x, _ := splitSexp(rest[1:])
+		if x == "" || strings.Contains(name, "q_") || strings.Contains(name, "p!") {
+			continue
+		}
+		if strings.Contains(x, "q_") || strings.Contains(x, "p!") || strings.HasPrefix(x, "(s.cap ") {
 			continue
 		}
 		out = append(out, idxOcc{name, x})
